@@ -181,7 +181,8 @@ def allreduceVal (e n : Nat) (op : List α → List α → List α) (ins : List 
 
 /-- the result written over the first `n` elements of each rank's out buffer -/
 def allreduce (e n : Nat) (op : List α → List α → List α) (ins outs : List (List α)) : List (List α) :=
-  outs.map (fun out => transferN (TMap.full e) n (allreduceVal e n op ins) 0 out 0)
+  let v := allreduceVal e n op ins
+  outs.map (fun out => transferN (TMap.full e) n v 0 out 0)
 
 /-- point-to-point in a ring: rank `r` receives what rank `(r - shift) mod P` sent (`lens` = element counts) -/
 def ringRecv (tm : TMap) (shift : Nat) (srcs : List (List α × Nat)) (dsts : List (List α)) : List (List α) :=
